@@ -311,17 +311,28 @@ func (c *rejectTrafficShapingController) PerformChecking(arg interface{}, batchC
 		} else {
 			//check whether the rest of token is enough to batch
 			oldQpsPtr, found := tokenCounter.Get(arg)
-			if found {
-				oldRestToken := atomic.LoadInt64(oldQpsPtr)
-				if oldRestToken-batchCount >= 0 {
-					//update
-					if atomic.CompareAndSwapInt64(oldQpsPtr, oldRestToken, oldRestToken-batchCount) {
-						return nil
-					}
-				} else {
-					msg := fmt.Sprintf("hotspot reject check blocked, request batch count is more than available token count, arg: %v", arg)
-					return base.NewTokenResultBlockedWithCause(base.BlockTypeHotSpotParamFlow, msg, c.BoundRule(), nil)
+			if !found {
+				// The two caches are locked separately and, with concurrent callers, do not evict in
+				// step: the value still has its refill time but its tokens are gone. Nothing recreates
+				// them inside the window, so start the value over as if it were seen for the first time
+				// (which is what the eviction of both entries amounts to) instead of spinning until the
+				// window has passed.
+				leftCount := maxCount - batchCount
+				if tokenCounter.AddIfAbsent(arg, &leftCount) == nil {
+					atomic.StoreInt64(lastAddTokenTimePtr, currentTimeInMs)
+					return nil
 				}
+				continue
+			}
+			oldRestToken := atomic.LoadInt64(oldQpsPtr)
+			if oldRestToken-batchCount >= 0 {
+				//update
+				if atomic.CompareAndSwapInt64(oldQpsPtr, oldRestToken, oldRestToken-batchCount) {
+					return nil
+				}
+			} else {
+				msg := fmt.Sprintf("hotspot reject check blocked, request batch count is more than available token count, arg: %v", arg)
+				return base.NewTokenResultBlockedWithCause(base.BlockTypeHotSpotParamFlow, msg, c.BoundRule(), nil)
 			}
 			runtime.Gosched()
 		}
